@@ -120,6 +120,26 @@ type FixJSONFallback struct {
 	H int `json:",omitempty"`
 	I int `codec:"i,x,omitempty,y"`
 }
+// values larger than the 1024-byte zero block the default build's emptiness test compares against
+type BigS struct {
+	A    [130]uint64
+	Last int64
+}
+type FixBig struct {
+	A [130]uint64 `codec:"a,omitempty"`
+	B BigS        `codec:"b,omitempty"`
+	C [140]int64  `codec:"c,omitempty"`
+	D int         `codec:"d,omitempty"`
+}
+type FixBigArr struct {
+	_struct bool `codec:",toarray"`
+	FixBig
+}
+type FixBigAll struct {
+	_struct bool `codec:",omitempty"`
+	P       [129]uint64
+	Q       BigS
+}
 type FixEsc struct {
 	A int `codec:"a<b"`
 	B int `codec:"q\"x"`
@@ -133,6 +153,12 @@ var fixedTypes = []reflect.Type{
 	reflect.TypeOf(FixUintKeys{}), reflect.TypeOf(FixOmit{}), reflect.TypeOf(FixOmitArr{}),
 	reflect.TypeOf(FixJSONFallback{}), reflect.TypeOf(FixEsc{}), reflect.TypeOf(TArrIn{}),
 	reflect.TypeOf(inner1{}), reflect.TypeOf(Inner2{}), reflect.TypeOf(struct{}{}),
+	reflect.TypeOf(FixBig{}), reflect.TypeOf(FixBigArr{}), reflect.TypeOf(FixBigAll{}), reflect.TypeOf(BigS{}),
+}
+
+var bigTypes = []reflect.Type{
+	reflect.TypeOf(FixBig{}), reflect.TypeOf(FixBigArr{}), reflect.TypeOf(FixBigAll{}), reflect.TypeOf(BigS{}),
+	reflect.TypeOf([130]uint64{}), reflect.TypeOf([140]int64{}), reflect.TypeOf([129]uint64{}),
 }
 
 // ---- random declarations ----
@@ -358,6 +384,21 @@ func fillVal(r *vh.Rng, v reflect.Value, o valOpts, depth int) {
 			v.Set(s)
 		}
 	case reflect.Array:
+		if t.Len() > 100 {
+			// large values: all zero, or zero for the first 1024 bytes and set only late, or set early too
+			switch r.Intn(4) {
+			case 0:
+			case 1, 2:
+				for i := 128; i < t.Len(); i++ {
+					if r.Bool() || i == t.Len()-1 {
+						fillNonZero(r, v.Index(i))
+					}
+				}
+			default:
+				fillNonZero(r, v.Index(r.Intn(t.Len())))
+			}
+			return
+		}
 		if zeroish && !o.quirks {
 			return
 		}
@@ -403,12 +444,29 @@ func fillVal(r *vh.Rng, v reflect.Value, o valOpts, depth int) {
 			v.Set(reflect.ValueOf(true))
 		}
 	case reflect.Struct:
+		if t == reflect.TypeOf(BigS{}) {
+			// the big array zero (or late-only) and the trailing field set, or everything zero
+			fillVal(r, v.Field(0), o, depth+1)
+			if r.Chance(2, 3) {
+				fillNonZero(r, v.Field(1))
+			}
+			return
+		}
 		if zeroish && depth > 0 && !o.quirks {
 			return
 		}
 		for i := 0; i < t.NumField(); i++ {
 			fillVal(r, v.Field(i), o, depth+1)
 		}
+	}
+}
+
+func fillNonZero(r *vh.Rng, v reflect.Value) {
+	switch v.Kind() {
+	case reflect.Int, reflect.Int8, reflect.Int16, reflect.Int32, reflect.Int64:
+		v.SetInt(int64(1 + r.Intn(90)))
+	case reflect.Uint, reflect.Uint8, reflect.Uint16, reflect.Uint32, reflect.Uint64:
+		v.SetUint(uint64(1 + r.Intn(90)))
 	}
 }
 
